@@ -52,6 +52,47 @@ pub fn other_fst_bytes() -> &'static [u8] {
     })
 }
 
+/// Enumerates an FST by hand through the public node API (`root`, `node`,
+/// `transitions`, `transition`, `transition_addr`, `find_input`, `is_final`,
+/// `final_output`), as `fst dot` / `fst csv` do. Iterative (long keys).
+pub fn walk_nodes<D: AsRef<[u8]>>(f: &fst::raw::Fst<D>, limit: usize) -> Result<Vec<Kv>, String> {
+    let mut out: Vec<Kv> = vec![];
+    // stack of (node address, next transition index, output so far)
+    let mut stack: Vec<(usize, usize, u64)> = vec![];
+    let mut key: Vec<u8> = vec![];
+    let root = f.root();
+    if root.is_final() {
+        out.push((vec![], root.final_output().value()));
+    }
+    stack.push((root.addr(), 0, 0));
+    while let Some(top) = stack.last_mut() {
+        let node = f.node(top.0);
+        if top.1 >= node.len() {
+            stack.pop();
+            key.pop();
+            continue;
+        }
+        let i = top.1;
+        top.1 += 1;
+        let acc = top.2;
+        let t = node.transition(i);
+        if node.transition_addr(i) != t.addr || node.find_input(t.inp) != Some(i) || node.transitions().nth(i).map(|x| (x.inp, x.addr)) != Some((t.inp, t.addr)) {
+            return Err(format!("node {}: transition({}) / transition_addr / find_input / transitions() disagree", top.0, i));
+        }
+        let v = acc + t.out.value();
+        key.push(t.inp);
+        let child = f.node(t.addr);
+        if child.is_final() {
+            out.push((key.clone(), v + child.final_output().value()));
+            if out.len() > limit {
+                return Err("node walk does not end".into());
+            }
+        }
+        stack.push((t.addr, 0, v));
+    }
+    Ok(out)
+}
+
 pub fn front_from(s: &str) -> Front {
     *ALL_FRONTS.iter().find(|f| format!("{:?}", f) == s).expect("front name")
 }
